@@ -1397,6 +1397,13 @@ func (x *Exec) evalMarker(st *State, call *ast.CallExpr, name string) *Term {
 			st.assume(c)
 		}
 		return tTrue
+	case "__assumeat":
+		if x.spec == 0 {
+			c := x.evalSpec(st.clone(), closureExpr(call.Args[1]))
+			st.assume(c)
+			x.assumed = append(x.assumed, fmt.Sprintf("%s assumes at a program point (%s): %s", x.top.Name(), strLit(call.Args[0], x.info()), x.nodeText(closureExpr(call.Args[1]))))
+		}
+		return tTrue
 	case "__imp":
 		return Implies(x.eval(st, call.Args[0]), x.eval(st, call.Args[1]))
 	case "__iff":
